@@ -466,10 +466,21 @@ async fn gen_random(rng: &mut Rng, prop: &str, len: usize) -> Option<Case> {
     // a report is followed by its delivery 3 times out of 4
     let mut pending_deliver = false;
     let mut script = script;
+    // with a zero deduplication window two reports of one issue never carry the same timestamp
+    // (assumption of issue_memory_bounded: accepted re-reports have strictly later timestamps)
+    let zero_window = cfg.pc.issue_deduplication_window.is_zero();
+    let mut last_report: Vec<(HookIssue, u64)> = vec![];
     let wrapped = move |rng: &mut Rng, r: &Runner, now: u64, k: usize| -> Option<Ev> {
         if pending_deliver { pending_deliver = false; if rng.chance(3, 4) { return Some(Ev::Deliver { now }); } }
-        let e = script(rng, r, now, k)?;
-        if matches!(e, Ev::Report { .. }) { pending_deliver = true; }
+        let mut e = script(rng, r, now, k)?;
+        if let Ev::Report { now: t, issue } = &mut e {
+            pending_deliver = true;
+            if zero_window {
+                if let Some((_, last)) = last_report.iter().find(|(i, _)| i == issue) { if *t <= *last { *t = *last + 1; } }
+                last_report.retain(|(i, _)| i != issue);
+                last_report.push((*issue, *t));
+            }
+        }
         Some(e)
     };
     run_case(cfg, u, pol, format!("random-{prop}"), wrapped, rng, len).await
